@@ -8,7 +8,7 @@ ALL = ["C%02d" % i for i in range(1, 21)]
 
 CLAIMED = {
     "C11": dict(
-        text="Coq theorems: a teardown invariant (held qubits of a node = |qubitList|, handles live) holds over every application history; StopApp completes and answers Done on error-free applications and leaves no held qubit of the application, for any number of application generations (`C11_stop_restores`); the network a host drives is a reachable Model-V state and, once every application is stopped, NO node holds a qubit, simulates a qubit or keeps a register (`C11_stop_leaves_nothing`, via 'registers are never empty at a quiescent point'); halves handed to the peer survive the creator's stop; `_refuted` witness for a pair creation that fails after its two temporaries exist (known finding). The closed-world theorems cover one host without entanglement generation; applications with pair halves are covered by the count oracle and the dump correspondence. Tie: applications with allocations, frees, pair halves and deliberately failing subroutines at capacities 1..3 over >= 3 generations through the real handler.",
+        text="Coq theorems: a teardown invariant (held qubits of a node = |qubitList|, handles live) holds over every application history; StopApp completes and answers Done on error-free applications and leaves no held qubit of the application, for any number of application generations (`C11_stop_restores`); the network a host drives is a reachable Model-V state and, once every application is stopped, NO node holds a qubit, simulates a qubit or keeps a register (`C11_stop_leaves_nothing`, via 'registers are never empty at a quiescent point'); halves handed to the peer survive the creator's stop; `_refuted` witness for a pair creation that fails after its two temporaries exist (known finding). The closed-world theorems cover one host without entanglement generation; applications with pair halves are covered by the count oracle and the dump correspondence. Tie: applications with allocations, frees, pair halves and deliberately failing subroutines at capacities 1..3 over >= 3 generations through the real handler; on 2-3 nodes: generations of create-and-keep requests, gates between the halves a node holds (repeater: both simulated elsewhere), measurements, frees and stops in any order, after which every node's (held, simulated, registers, register counter) must be (0, 0, 0, 0) and a stop must not change what other nodes hold.",
         design="9.5/C11 (notes/C11.md)",
         note="Trusted: as C09. Known findings: C11:epr-temporaries (D16 ii), C11:appid-reuse (application id cannot be reused after StopApp; root cause in netqasm's SharedMemoryManager).",
         technique="Coq proof (teardown invariant over application histories, refutation witness) + vm_compute correspondence + count oracle"),
@@ -61,7 +61,7 @@ CLAIMED = {
         note="Trusted: as C05. Concurrent arrivals for the last slot are covered by the PB schedules of C03 when present, not by this sequential model.",
         technique="Coq proof (capacity invariant over fold_left step + iff decision theorems) + vm_compute correspondence"),
     "C08": dict(
-        text="Coq theorems over the EPR layer model: for every n and EVERY interleaving of creator steps and receiver polls both sides obtain exactly n results whose i-th entries carry equal sequence numbers, opposite directionality, each other's node id and the local socket as purpose id, FIFO per socket; sequence numbers are unique per direction; `C08_seq_unique_refuted`: pairs created in opposite directions on one socket pair collide (known finding D15); after the creator's four native operations the pair register is exactly [XX; ZZ] (stabilizer model, vm_compute); measure-directly outcome table for all 3x3 bases x coins consistent with |Phi+>. Tie: two/three real SubroutineHandlers on the in-process network driven through netqasm.sdk under a seeded scheduler (25% over real PB); ReturnArray contents on both hosts, joint state of the delivered qubits (numpy), FIFO/sequence model compared in Coq.",
+        text="Coq theorems over the EPR layer model: for every n and EVERY interleaving of creator steps and receiver polls both sides obtain exactly n results whose i-th entries carry equal sequence numbers, opposite directionality, each other's node id and the local socket as purpose id, FIFO per socket; sequence numbers are unique per direction; `C08_seq_unique_refuted`: pairs created in opposite directions on one socket pair collide (known finding D15); after the creator's four native operations the pair register is exactly [XX; ZZ] (stabilizer model, vm_compute); measure-directly outcome table for all 3x3 bases x coins consistent with |Phi+>. Tie: two/three real SubroutineHandlers on the in-process network driven through netqasm.sdk under a seeded scheduler (25% over real PB); measure-directly requests carry random 8-bit basis-choice weights per side (written into the request array, which the SDK leaves at 0), nodes give up earlier halves between requests; ReturnArray contents on both hosts, reported bases within the requested sets, joint state of the delivered qubits (numpy), FIFO/sequence model compared in Coq.",
         design="9.5/C08 (notes/C08.md)",
         note="Trusted: Coq kernel; netqasm SDK/message layer (library code); the keyed (multi-socket) model is tied by correspondence, the pairing theorem is proved for one direction and lifted by the per-key independence argument stated in the notes (not proved).",
         technique="Coq proof (LTS over all interleavings, finite tables by vm_compute, refutation witness) + vm_compute correspondence with real NetQASM handlers"),
